@@ -32,6 +32,8 @@ var treeNamePool = []string{"a", "b", "c d", "é", "00", "A1x", ".", "..", "x.tx
 	"0", "7", "007", "-1", "2024", "9223372036854775807",
 	// names that begin or end with white space (and their trimmed twins)
 	"t ", " t", "t", "t\t", "\nt", "t\u00a0", "\u00a0",
+	// names that differ in letter case only (and case-folding twins)
+	"README", "readme", "Readme", "Straße", "straße", "STRASSE", "ß", "ss", "K", "k", "\u212a",
 	"L255" + strings.Repeat("x", 251), "L256" + strings.Repeat("x", 252), "L257" + strings.Repeat("x", 253), "L300" + strings.Repeat("x", 296), "L1000" + strings.Repeat("x", 995)}
 
 // genTreeNames draws distinct entry names without '/' (a path separator) for one directory.
